@@ -808,12 +808,29 @@ theorem albNewtonStep_zero_iff (E : Ell ℝ) (s sm1 t0 : ℝ)
     · exact absurd h1 hpos.ne'
   · intro h; rw [h]; simp
 
-/-- the loop stays at a point where the correction vanishes -/
-theorem albNewtonLoop_fixed (E : Ell ℝ) (s sm1 stol t0 : ℝ) (h : albNewtonStep E s sm1 t0 = 0) (n : ℕ) :
-    albNewtonLoop E s sm1 stol n t0 = t0 := by
-  induction n with
+/-- the (safeguarded) loop stays at a point where the correction vanishes: from the start (`hasPrev = false`) or once the previous
+    iterate is that point itself -/
+theorem albNewtonLoop_fixed' (E : Ell ℝ) (s sm1 stol t0 : ℝ) (h : albNewtonStep E s sm1 t0 = 0) (n : ℕ) (hp : Bool) (tp up dp : ℝ)
+    (hup : hp = false ∨ up = (albNewtonU E s sm1 t0 (atanhxm1 (albNewtonArg E t0))).1) :
+    albNewtonLoop E s sm1 stol n hp tp up dp t0 = t0 := by
+  induction n generalizing hp tp up dp with
   | zero => rfl
-  | succ n ih => simp only [albNewtonLoop, h, add_zero, ih, ite_self]
+  | succ n ih =>
+    have hd : (0 : ℝ) - (albNewtonU E s sm1 t0 (atanhxm1 (albNewtonArg E t0))).1 / (albNewtonU E s sm1 t0 (atanhxm1 (albNewtonArg E t0))).2.1 *
+        (albNewtonU E s sm1 t0 (atanhxm1 (albNewtonArg E t0))).2.2 = 0 := by
+      have := h; unfold albNewtonStep at this; simpa [zero_real] using this
+    have hcond : (hp && RealLike.ltb (RealLike.abs up) (RealLike.abs (albNewtonU E s sm1 t0 (atanhxm1 (albNewtonArg E t0))).1)) = false := by
+      rcases hup with h0 | h0
+      · rw [h0]; rfl
+      · rw [h0]; simp [ltb_real]
+    simp only [albNewtonLoop, hcond, zero_real, hd, add_zero, Bool.false_eq_true, if_false]
+    split
+    · rfl
+    · exact ih true t0 _ 0 (Or.inr rfl)
+
+theorem albNewtonLoop_fixed (E : Ell ℝ) (s sm1 stol t0 : ℝ) (h : albNewtonStep E s sm1 t0 = 0) (n : ℕ) :
+    albNewtonLoop E s sm1 stol n false t0 0 0 t0 = t0 :=
+  albNewtonLoop_fixed' E s sm1 stol t0 h n false t0 0 0 (Or.inl rfl)
 
 /-- `u = 0` with `sm1 = 1 − s` is the defining equation `s = sphi0 qZ/(m0² + sphi0 q0)` written without denominators:
     `g qZ = s (1 + g q0)`, `g = scbet0² sphi0 = sphi0/m0²` -/
@@ -944,11 +961,11 @@ theorem Deatanhe_mul_oblate (es x y : ℝ) (hes : 0 < es) (hx : |es * x| < 1) (h
     have : x - y ≠ 0 := sub_ne_zero.mpr h
     field_simp
 
-theorem Deatanhe_mul_prolate (es x y : ℝ) (hes : es ≤ 0) (hprod : -1 < es * x * (es * y)) :
+theorem Deatanhe_mul_prolate (es x y : ℝ) (hes : es ≤ 0) :
     Deatanhe (-(es ^ 2)) es x y * (x - y) = eatanhe x es - eatanhe y es := by
   by_cases h : x = y
   · rw [h]; simp
-  · rw [Deatanhe_dd_prolate es x y hes hprod h]
+  · rw [Deatanhe_dd_prolate es x y hes h]
     have : x - y ≠ 0 := sub_ne_zero.mpr h
     field_simp
 
@@ -980,11 +997,8 @@ theorem lccNcCareful_oblate (E : Ell ℝ) (t1 t2 : ℝ) (hfm : 0 < E.fm) (h12 : 
     (by rw [he2]; exact Deatanhe_mul_oblate E.es _ _ hes a1 a2)
     (by rw [he2]; exact Deatanhe_mul_oblate E.es _ _ hes a2 a1) hψ
 
-/-- the careful `nc` on a prolate ellipsoid (`es ≤ 0`, `e² = −es²`) outside the class of finding F80: the three products
-    `e²·x·y` of the pairs `(1, sphi1)`, `(1, sphi2)`, `(sphi1, sphi2)` stay above `−1` -/
+/-- the careful `nc` on a prolate or spherical ellipsoid (`es ≤ 0`, `e² = −es²`): no restriction on the parallels since 36a144d -/
 theorem lccNcCareful_prolate (E : Ell ℝ) (t1 t2 : ℝ) (hfm : 0 < E.fm) (h12 : t1 ≠ t2) (hes : E.es ≤ 0) (he2 : E.e2 = -(E.es ^ 2))
-    (hp1 : -1 < E.es * 1 * (E.es * (t1 / hyp t1))) (hp2 : -1 < E.es * 1 * (E.es * (t2 / hyp t2)))
-    (hp12 : -1 < E.es * (t1 / hyp t1) * (E.es * (t2 / hyp t2)))
     (hψ : Real.arsinh t2 - eatanhe (t2 / hyp t2) E.es ≠ Real.arsinh t1 - eatanhe (t1 / hyp t1) E.es) :
     let x1 := eatanhe (t1 / hyp t1) E.es
     let x2 := eatanhe (t2 / hyp t2) E.es
@@ -994,12 +1008,11 @@ theorem lccNcCareful_prolate (E : Ell ℝ) (t1 t2 : ℝ) (hfm : 0 < E.fm) (h12 :
         (t2 / hyp t2) t2 (hyp t2) (Real.sinh x2) (hyp (Real.sinh x2)) x2 (tchiR t2 x2) (hyp (tchiR t2 x2)) (E.fm * t2) (hyp (E.fm * t2))
       = Real.sqrt (max 0 (1 - nd.1) * (1 + nd.1)) := by
   intro x1 x2 nd
-  have hp21 : -1 < E.es * (t2 / hyp t2) * (E.es * (t1 / hyp t1)) := by linarith [mul_comm (E.es * (t1 / hyp t1)) (E.es * (t2 / hyp t2))]
   exact lccNcCareful_eq E t1 t2 x1 x2 hfm h12
-    (by rw [he2]; exact Deatanhe_mul_prolate E.es 1 _ hes hp1)
-    (by rw [he2]; exact Deatanhe_mul_prolate E.es 1 _ hes hp2)
-    (by rw [he2]; exact Deatanhe_mul_prolate E.es _ _ hes hp12)
-    (by rw [he2]; exact Deatanhe_mul_prolate E.es _ _ hes hp21) hψ
+    (by rw [he2]; exact Deatanhe_mul_prolate E.es 1 _ hes)
+    (by rw [he2]; exact Deatanhe_mul_prolate E.es 1 _ hes)
+    (by rw [he2]; exact Deatanhe_mul_prolate E.es _ _ hes)
+    (by rw [he2]; exact Deatanhe_mul_prolate E.es _ _ hes) hψ
 
 /-- Snyder's (15-8) for any ellipsoid on which `Deatanhe(sphi2, sphi1)` is a divided difference -/
 theorem lcc_n_snyder_gen (E : Ell ℝ) (t1 t2 x1 x2 : ℝ) (h12 : t1 ≠ t2)
